@@ -78,6 +78,9 @@ Rf(o, m)   == IF m \in DOMAIN o.cfg.rf THEN o.cfg.rf[m] ELSE "ok"
 (* C04 (and the cleartext part of C07) at a command line                   *)
 
 CleartextAllowed == {"EHLO", "HELO", "STARTTLS", "QUIT"}
+(* host kinds: "localhost" (the name), "loopback" (127.0.0.1, ::1) are the localhost servers of C07;  *)
+(* "lookalike" (127.mail.example.test, localhost.example.test ...) and "other" are not                *)
+LocalKinds == {"localhost", "loopback"}
 
 CmdFlags(o, e) ==
   LET v == e.verb IN
@@ -96,7 +99,7 @@ CmdFlags(o, e) ==
   \cup Flag("C07_ImplicitTLS", o.cfg.policy = "implicit" => e.enc)
   \cup Flag("C07_CredInTLS",
             (e.cred /\ ~e.enc /\ (IF v = "AUTH" THEN e.mech ELSE o.authMech) \in {"PLAIN", "LOGIN"})
-               => (o.cfg.noenc \/ o.cfg.hostkind = "localhost"))
+               => (o.cfg.noenc \/ o.cfg.hostkind \in LocalKinds))
   \cup Flag("C07_AutoDiscover",
             (o.cfg.authtype = "AUTODISCOVER" /\ v = "AUTH" /\ ~e.enc)
                => e.mech \notin {"PLAIN", "LOGIN", "XOAUTH2"})
